@@ -204,6 +204,7 @@ theorem lt_of_mem_deps (hw : WfCore e) {i d : Nat} (hd : d ∈ Dfs.deps (absEng 
 
 /-! ### the DFS of the model is the abstract DFS -/
 def absStep (f : Nat) (st : Dfs.St) (dep : Nat) : Dfs.St :=
+  if dep ∈ st.mark then st else
   let st' := Dfs.rec (absEng e) f dep st
   if dep ∈ st'.mark then st' else { dfs := st'.dfs ++ [dep], mark := dep :: st'.mark }
 
@@ -232,6 +233,7 @@ theorem dfsRec_sim (hw : WfCore e) : ∀ (f idx : Nat) (dfs mark : List Nat), id
             match e.names.lookup req with
             | none => some st
             | some dep =>
+              if st.2.contains dep then some st else
               match dfsRec e f dep st with
               | none => none
               | some (dfs, mark) =>
@@ -253,12 +255,22 @@ theorem dfsRec_sim (hw : WfCore e) : ∀ (f idx : Nat) (dfs mark : List Nat), id
           have hdep : dep < e.rules.length := hv nm (by simp) dep hl
           have : idxOf e nm = some dep := hl
           simp only [List.filterMap_cons, this, List.foldl_cons]
+          by_cases hpre : m.contains dep = true
+          · have hstep0 : absStep (e := e) f ⟨d, m⟩ dep = ⟨d, m⟩ := by
+              simp only [absStep, List.contains_iff_mem] at hpre ⊢
+              rw [if_pos hpre]
+            simp only [hpre, if_true]
+            rw [hstep0]
+            exact ihl d m (fun n' hn' => hv n' (by simp [hn']))
+          simp only [hpre, Bool.false_eq_true, if_false]
           rw [ih dep d m hdep]
           simp only
+          have hpre' : ¬ dep ∈ m := by simpa [List.contains_iff_mem] using hpre
           have hstep : absStep (e := e) f ⟨d, m⟩ dep =
               (if (Dfs.rec (absEng e) f dep ⟨d, m⟩).mark.contains dep then Dfs.rec (absEng e) f dep ⟨d, m⟩
                else { dfs := (Dfs.rec (absEng e) f dep ⟨d, m⟩).dfs ++ [dep], mark := dep :: (Dfs.rec (absEng e) f dep ⟨d, m⟩).mark }) := by
             simp only [absStep, List.contains_iff_mem]
+            rw [if_neg hpre']
           by_cases hc : (Dfs.rec (absEng e) f dep ⟨d, m⟩).mark.contains dep = true
           · simp only [hc, if_true]
             have := ihl (Dfs.rec (absEng e) f dep ⟨d, m⟩).dfs (Dfs.rec (absEng e) f dep ⟨d, m⟩).mark
@@ -324,6 +336,8 @@ theorem rec_mem (f : Nat) : ∀ (idx : Nat) (st : Dfs.St) (y : Nat), y ∈ (Dfs.
         simp only [List.foldl_cons] at h
         rcases ihl _ (fun d' hd' => hd d' (by simp [hd'])) h with h1 | h1
         · simp only [absStep] at h1
+          split at h1
+          · exact Or.inl h1
           split at h1
           · exact ih d st y h1
           · simp only [List.mem_append, List.mem_singleton] at h1
